@@ -195,6 +195,23 @@ let obs_parse_random (s : sess) (r : rng) (spec : move list) =
     | [ "p"; "throw" ] -> bump "parse_random_strings"
     | _ -> fail_spec "parse_move accepts %S (a legal text followed by a NUL byte)" str
   end;
+  (* the four standard castling spellings, always: accepted only as the castling move of that wing of the side to move
+     (and only with a king on the e-file home square), whatever rook squares the object remembers *)
+  List.iter (fun (str, mt, home, side) ->
+      let line = send s.d ("parse " ^ hexstr str) in
+      let want = parse_move (cur s).mp (str_of_string str) in
+      (match toks line, want with
+       | [ "p"; "throw" ], None -> ()
+       | [ "p"; c ], Some wm when c <> "throw" && int_of_string c = code_of_move wm ->
+         let mv = move_of_code (int_of_string c) in
+         if not (List.exists (fun x -> code_of_move x = int_of_string c) spec) then fail_spec "parse_move(%S) returns %s, which is not a legal move" str (show_move mv);
+         let sp0 = sp_of s in
+         let text_ok = string_of_str (move_text mv) = str in
+         let alias_ok = mv.m_type = mt && sp0.s_turn = side && (match at_sq sp0.s_board (n_of_int home) with Some (_, King) -> true | _ -> false) in
+         if not (text_ok || alias_ok) then fail_spec "parse_move(%S) returns %s: neither that move's text nor the castling move of that wing of the side to move" str (show_move mv)
+       | _ -> fail_model "parse_move(%S) differs from the model's" str);
+      bump "parse_alias_strings")
+    [ ("e1g1", Ksc, 4, White); ("e1c1", Qsc, 4, White); ("e8g8", Ksc, 60, Black); ("e8c8", Qsc, 60, Black) ];
   for _ = 1 to 12 do
     let str = mk () in
     if not (String.contains str ' ') && str <> "" then begin
@@ -353,7 +370,7 @@ let walk (s : sess) (r : rng) (pl : plan) =
 let root_children (s : sess) (r : rng) (pl : plan) =
   let spec = spec_moves (sp_of s) in
   let special (m : move) =
-    (match m.m_type with Normal -> false | _ -> true) || m.m_piece = King || m.m_piece = Rook in
+    (match m.m_type with Normal -> false | _ -> true) || m.m_piece = King || m.m_piece = Rook || m.m_cap = Rook in
   let sp, ord = List.partition special spec in
   let sp = if List.length sp > 14 then List.filteri (fun i _ -> i mod (1 + List.length sp / 14) = rand r 2 || i < 2) sp else sp in
   let ord = match ord with [] -> [] | l -> [ pick r l; pick r l ] in
@@ -366,8 +383,10 @@ let root_children (s : sess) (r : rng) (pl : plan) =
       let st', hi' = send s.d "state", send s.d "hist" in
       if st' <> st || hi' <> hi then fail_spec "after undo of %s the position differs from the one saved before the move:\n before: %s\n after:  %s" (show_move m) st st') (sp @ ord)
 
+let prefer_reuse = ref false      (* set for families whose point is what the previous position left in the object *)
 let start (s : sess) (d : bool) (p : spos) =
-  let reuse = (not !force_fresh) && !reuse_chain < 3 && s.stack <> [] && (match !the_rng with Some r -> chance r 1 3 | None -> false) in
+  let reuse = (not !force_fresh) && s.stack <> [] &&
+              (if !prefer_reuse then !reuse_chain < 12 else !reuse_chain < 3 && (match !the_rng with Some r -> chance r 1 3 | None -> false)) in
   if reuse then begin incr reuse_chain; bump "starts_on_reused_object"; op_setfen s d (fen_string d p) end
   else begin reuse_chain := 0; force_fresh := false; op_new s d (fen_string d p) end
 
@@ -433,7 +452,11 @@ let run_c16 (s : sess) (r : rng) =
       for q = 0 to 63 do
         let line = send s.d (Printf.sprintf "sq %d" q) in
         (match toks line with
-         | [ "q"; rk; fl; flip; light; dark; name; fr; fromstr; valid; offvalid; off; no; so; ea; we; os1; os2 ] ->
+         | [ "q"; rk; fl; flip; light; dark; name; fr; fromstr; valid; offvalid; off; no; so; ea; we; os1; os2; os3; os4; os5; tbl ] ->
+           if unhexstr os3 <> sq_name q ^ "..." || unhexstr os4 <> "****" ^ sq_name q || unhexstr os5 <> sq_name q then
+             fail_spec "Square(%d) inserted with a field width / octal flags reads %S (left, width 5, fill '.'), %S (right, width 6, fill '*'), %S (oct|showpos); the name is %S"
+               q (unhexstr os3) (unhexstr os4) (unhexstr os5) (sq_name q);
+           if unhexstr tbl <> sq_name q then fail_spec "square_strings[%d] = %S, the square is %S" q (unhexstr tbl) (sq_name q);
            if unhexstr os1 <> sq_name q || unhexstr os2 <> sq_name q then
              fail_spec "Square(%d) inserted into a stream reads %S (fresh stream) / %S (stream with hex|showbase|showpos|uppercase set), expected %S" q (unhexstr os1) (unhexstr os2) (sq_name q);
            let i = int_of_string in
@@ -498,7 +521,14 @@ let run_c17 (s : sess) (r : rng) =
       let one t f to_ p c pr (t2, f2, to2, p2, c2, pr2) =
         let line = send s.d (Printf.sprintf "mv %d %d %d %d %d %d %d %d %d %d %d %d" t f to_ p c pr t2 f2 to2 p2 c2 pr2) in
         match toks line with
-        | [ "m"; raw; gt; gf; gto; gp; gc; gpr; iscap; ispromo; txt; eq; ne; _nz ] ->
+        | [ "m"; raw; gt; gf; gto; gp; gc; gpr; iscap; ispromo; txt; eq; ne; _nz; s1; s2; s3; s4 ] ->
+          if txt <> "skip" then begin
+            let w = unhexstr txt in
+            let pad c n x left = let k = max 0 (n - String.length x) in if left then x ^ String.make k c else String.make k c ^ x in
+            if unhexstr s1 <> w || unhexstr s2 <> w || unhexstr s3 <> pad '.' 8 w true || unhexstr s4 <> pad '*' 9 w false then
+              fail_spec "Move %S inserted into a stream reads %S (fresh), %S (hex|showbase|showpos|uppercase), %S (left, width 8, fill '.'), %S (oct, right, width 9, fill '*')"
+                w (unhexstr s1) (unhexstr s2) (unhexstr s3) (unhexstr s4)
+          end;
           let i = int_of_string in
           if i gt <> t || i gf <> f || i gto <> to_ || i gp <> p || i gc <> c || i gpr <> pr then
             fail_spec "Move(%d,%d,%d,%d,%d,%d) reads back as (%s,%s,%s,%s,%s,%s)" t f to_ p c pr gt gf gto gp gc gpr;
@@ -568,6 +598,20 @@ let subsets_of (mask : int64) (f : int64 -> unit) =
 let run_c14 (s : sess) (r : rng) =
   run_case s (fun () ->
       reset_log s.d;
+      (* the very FIRST slider lookups of this process, with the extreme occupancies (full board, empty board, only the own
+         square, everything but the own square): a lazily built table or a per-square cache with a sentinel shows here *)
+      for sq = 63 downto 0 do
+        let nsq = n_of_int sq in
+        let occs = [ n_of_hex "ffffffffffffffff"; N0; bit nsq; not64 (bit nsq) ] in
+        let occ = List.nth occs ((sq + !shard) mod 4) in
+        (match toks (send s.d (Printf.sprintf "magic %d %s" sq (hexn occ))) with
+         | [ "g"; b; rk; q ] ->
+           let wb = calc_bishop_moves nsq occ and wr = calc_rook_moves nsq occ in
+           if b <> hexn wb || rk <> hexn wr || q <> hexn (N.coq_lor wb wr) then
+             fail_spec "first lookup of the process: bishop/rook/queen_moves(%s, %s) = %s / %s / %s, the ray walk gives %s / %s / %s" (sq_name sq) (hexn occ) b rk q (hexn wb) (hexn wr) (hexn (N.coq_lor wb wr));
+           bump ~by:3 "evaluations"
+         | _ -> raise (Mismatch ("crash", "magic line")))
+      done;
       for sq = 0 to 63 do
         if sq mod !nshards = !shard then begin
           let nsq = n_of_int sq in
@@ -650,7 +694,7 @@ let run_c15 (s : sess) (r : rng) (corpus : (bool * string) list) =
           let f = fen_string d p in
           let h0 = (get_state s).chash in
           let flip = { p with s_turn = opp_side p.s_turn; s_ep = None } in
-          let with_clocks = { p with s_half = n_of_int (int_of_n p.s_half + 3); s_full = n_of_int (int_of_n p.s_full + 5) } in
+          let with_clocks = { p with s_half = n_of_int (int_of_n p.s_half mod 1000000 + 3); s_full = n_of_int (int_of_n p.s_full mod 1000000 + 5) } in
           op_setfen s d (fen_string d with_clocks);
           let h1 = (get_state s).chash in
           if h1 <> h0 then fail_spec "hash depends on the clocks: %s vs %s" f (fen_string d with_clocks);
@@ -682,17 +726,80 @@ let run_positions (s : sess) (r : rng) (corpus : (bool * string) list) (pl : pla
      legal-consistency): a clock stored too narrowly anywhere — history record, FEN field, undo — shows within a few plies *)
   let starts = List.map (fun (d, p, tag) ->
       if p.s_ep = None && chance r 1 8 then
-        (d, { p with s_half = n_of_int [| 254; 255; 256; 65534; 65535; 65536; 4294967294; 4294967295 |].(rand r 8) }, tag)
+        (d, { p with s_half = n_of_dec [| "254"; "255"; "256"; "65534"; "65535"; "65536"; "4294967294"; "4294967295"; "9223372036854775806";
+                                          "9223372036854775807"; "9223372036854775808"; "18446744073709549000" |].(rand r 12);
+                     s_full = (if chance r 1 3 then n_of_dec [| "0"; "255"; "65535"; "4294967295"; "9223372036854775807"; "9223372036854775808";
+                                                               "9999999999999999999"; "10000000000000000000"; "18446744073709549000" |].(rand r 9) else p.s_full) }, tag)
       else (d, p, tag)) starts in
   List.iter (fun (d, p, tag) ->
       run_case s (fun () ->
+          prefer_reuse := (tag = "castling_family");     (* consecutive castling set-ups with different rook files and partial rights on ONE object *)
           start s d p;
+          prefer_reuse := false;
           bump ("source_" ^ tag);
           if List.length !samples < 4 then add_sample (Printf.sprintf "new %d %s ; walk depth %d" (if d then 1 else 0) (fen_string d p) pl.depth);
           root_children s r pl;
           walk s r pl)) starts
 
 let tagged tag l = List.map (fun (d, p) -> (d, p, tag)) l
+
+(* ---------- positions whose hash is a chosen 64-bit value (0, all ones): linear algebra over GF(2) on the key table.
+   Sentinel values of the hash ("0 means no hash stored") are then ordinary start positions of walks. ---------- *)
+let int64_of_n (x : n) : int64 = Int64.of_string ("0x" ^ hex_of_n x)
+let hash_target_position (keys : zkeys) (r : rng) (target : int64) : spos option =
+  let result = ref None in
+  let tries = ref 0 in
+  while !result = None && !tries < 400 do
+    incr tries;
+    let a = empty_board () in
+    let wk = rand r 64 in
+    let bk = rand r 64 in
+    if wk <> bk && not (king_adjacent wk bk) then begin
+      a.(wk) <- Some (White, King); a.(bk) <- Some (Black, King);
+      let turn = if chance r 1 2 then White else Black in
+      let h0 = Int64.logxor (int64_of_n (piece_key keys King White (n_of_int wk))) (int64_of_n (piece_key keys King Black (n_of_int bk))) in
+      let h0 = if turn = Black then Int64.logxor h0 (int64_of_n (turn_key keys)) else h0 in
+      let want = Int64.logxor target h0 in
+      (* one optional man per free square: mostly pawns and knights (few attacks), some sliders *)
+      let vars = List.filter_map (fun q ->
+          if q = wk || q = bk then None else begin
+            let s_ = if chance r 1 2 then White else Black in
+            let pc = if q >= 8 && q < 56 then [| Pawn; Pawn; Pawn; Knight; Knight; Bishop; Rook; Queen |].(rand r 8) else [| Knight; Knight; Bishop; Rook |].(rand r 4) in
+            Some (q, s_, pc, int64_of_n (piece_key keys pc s_ (n_of_int q)))
+          end) (List.init 64 (fun i -> i)) in
+      (* Gaussian elimination: basis.(b) = (vector with leading bit b, set of variable indices that produce it) *)
+      let basis = Array.make 64 None in
+      let varr = Array.of_list vars in
+      Array.iteri (fun i (_, _, _, key) ->
+          let v = ref key and used = ref [ i ] in
+          let b = ref 63 in
+          while !b >= 0 do
+            if Int64.logand !v (Int64.shift_left 1L !b) <> 0L then begin
+              match basis.(!b) with
+              | None -> basis.(!b) <- Some (!v, !used); b := -1
+              | Some (bv, bu) -> v := Int64.logxor !v bv; used := List.filter (fun x -> not (List.mem x bu)) !used @ List.filter (fun x -> not (List.mem x !used)) bu; decr b
+            end else decr b
+          done) varr;
+      let v = ref want and used = ref [] and ok = ref true in
+      for b = 63 downto 0 do
+        if !ok && Int64.logand !v (Int64.shift_left 1L b) <> 0L then
+          match basis.(b) with
+          | None -> ok := false
+          | Some (bv, bu) -> v := Int64.logxor !v bv; used := List.filter (fun x -> not (List.mem x bu)) !used @ List.filter (fun x -> not (List.mem x !used)) bu
+      done;
+      if !ok then begin
+        List.iter (fun i -> let (q, s_, pc, _) = varr.(i) in a.(q) <- Some (s_, pc)) !used;
+        let p = spos_of_array a turn ~half:(rand r 40) ~full:(1 + rand r 60) () in
+        if lc true p then result := Some p
+      end
+    end
+  done;
+  !result
+
+let hash_sentinel_starts (s : sess) (r : rng) : (bool * spos * string) list =
+  List.filter_map (fun t -> match hash_target_position s.keys r t with
+      | Some p -> Some (true, p, "hash_sentinel") | None -> bump "hash_sentinel_not_found"; None)
+    (if !shard mod 2 = 0 then [ 0L; Int64.minus_one ] else [ Int64.minus_one; 0L; 1L ])
 
 (* ---------- scripted histories: shapes that random walks do not produce ---------- *)
 let rep n l = List.concat (List.init n (fun _ -> l))
@@ -713,6 +820,16 @@ let scripts () : script list = [
   { sc_name = "stale_history"; sc_dfrc = false; sc_fen = startfen; sc_every = 1; sc_shard0 = false;
     sc_ops = rep 2 knight_cycle @ [ "setfen:0:rnbqkbnr/pppppppp/8/8/8/8/PPPPPPPP/RNBQKBNR w KQkq - 8 5" ] @ rep 2 knight_cycle
              @ [ "setfen:1:rnbqkbnr/pppppppp/8/8/8/8/PPPPPPPP/RNBQKBNR w HAha - 12 7" ] @ knight_cycle };
+  (* a king captures a rook that still holds its castling right; the position after the capture then recurs twice *)
+  { sc_name = "king_takes_castling_rook"; sc_dfrc = false; sc_fen = "4k2r/6K1/8/8/8/8/8/8 w k - 0 1"; sc_every = 1; sc_shard0 = false;
+    sc_ops = [ "g7h8" ] @ rep 3 [ "e8e7"; "h8g8"; "e7e8"; "g8h8" ] @ [ "undo"; "undo"; "undo"; "undo"; "undo" ] };
+  { sc_name = "king_takes_castling_rook_black"; sc_dfrc = true; sc_fen = "8/8/8/8/8/8/1k6/R3K3 b A - 5 30"; sc_every = 1; sc_shard0 = false;
+    sc_ops = [ "b2a1" ] @ rep 3 [ "e1e2"; "a1b1"; "e2e1"; "b1a1" ] };
+  (* a threefold repetition with a half-move clock beyond 2^63 *)
+  { sc_name = "threefold_huge_clock"; sc_dfrc = false; sc_fen = "rnbqkbnr/pppppppp/8/8/8/8/PPPPPPPP/RNBQKBNR w KQkq - 9223372036854775808 7"; sc_every = 1; sc_shard0 = false;
+    sc_ops = rep 3 knight_cycle };
+  { sc_name = "threefold_huge_clock2"; sc_dfrc = false; sc_fen = "rnbqkbnr/pppppppp/8/8/8/8/PPPPPPPP/RNBQKBNR w KQkq - 18446744073709549000 10000000000000000000"; sc_every = 1; sc_shard0 = false;
+    sc_ops = rep 3 knight_cycle };
   (* a root whose full-move number is 0, both sides *)
   { sc_name = "fullmove_zero"; sc_dfrc = false; sc_fen = "r3k2r/pppppppp/8/8/8/8/PPPPPPPP/R3K2R w KQkq - 0 0"; sc_every = 1; sc_shard0 = false;
     sc_ops = [ "a2a3"; "a7a6"; "undo"; "undo"; "null"; "a7a6"; "undo"; "undo"; "e1h1"; "e8a8" ] };
@@ -788,18 +905,33 @@ let () =
        | "C15" -> run_c15 s r corpus
        | "C01" ->
          let fam = tagged "castling_family" (castling_family r (600 / !nshards)) @ tagged "ep_family" (ep_family r (1200 / !nshards))
-                   @ tagged "pin_family" (pin_family r (600 / !nshards)) @ tagged "promo_family" (promo_family r (300 / !nshards)) in
+                   @ tagged "pin_family" (pin_family r (600 / !nshards)) @ tagged "promo_family" (promo_family r (300 / !nshards))
+                   @ tagged "no_move_family" (no_move_family r (160 / !nshards)) @ tagged "discovery_family" (discovery_family r (200 / !nshards))
+                   @ tagged "material_family" (material_family r (48 / !nshards)) in
+         (* equal hash, different castling rook: all move-list queries on the one and immediately on the other, on one object *)
+         List.iter (fun (pa, pb) ->
+             run_case s (fun () ->
+                 bump "source_rook_identity_pair";
+                 let pl = { none with p_moves = true; p_into = true; p_islegal = true } in
+                 op_new s true (fen_string true pa); ignore (visit s r pl);
+                 op_setfen s true (fen_string true pb); ignore (visit s r pl);
+                 op_setfen s true (fen_string true pa); ignore (visit s r pl))) (rook_identity_pairs r (max 1 ((if !tier = "quick" then 64 else 1200) / !nshards)));
          run_positions s r corpus { none with p_moves = true; p_into = true; p_islegal = true; depth = 10; undo_pct = 5; null_pct = 2 } 3000 60000 ~extra:fam ()
        | "C02" ->
          run_scripts s r { none with p_state = true } [ "fullmove_zero" ];
          run_positions s r corpus { none with p_state = true; p_maketext = true; depth = 40; undo_pct = 4; null_pct = 4 } 3000 100000
                     ~extra:(tagged "castling_family" (castling_family r (400 / !nshards)) @ tagged "promo_family" (promo_family r (300 / !nshards))) ()
        | "C03" ->
-         run_scripts s r { none with p_state = true; p_hist = true } [ "very_long_history"; "fullmove_zero"; "move_from_own_history" ];
-         run_positions s r corpus { none with p_state = true; p_hist = true; p_moves = true; depth = 120; undo_pct = 30; null_pct = 6 } 800 20000 ()
-       | "C05" -> run_positions s r corpus { none with p_state = true; depth = 60; undo_pct = 15; null_pct = 5 } 3000 100000 ()
+         run_scripts s r { none with p_state = true; p_hist = true } [ "very_long_history"; "fullmove_zero"; "move_from_own_history"; "king_takes_castling_rook"; "king_takes_castling_rook_black" ];
+         run_positions s r corpus { none with p_state = true; p_hist = true; p_moves = true; depth = 120; undo_pct = 30; null_pct = 6 } 800 20000
+           ~extra:(hash_sentinel_starts s r) ()
+       | "C05" ->
+         run_scripts s r { none with p_state = true } [ "king_takes_castling_rook"; "king_takes_castling_rook_black"; "fullmove_zero" ];
+         run_positions s r corpus { none with p_state = true; depth = 60; undo_pct = 15; null_pct = 5 } 3000 100000
+           ~extra:(hash_sentinel_starts s r @ tagged "castling_family" (castling_family r (600 / !nshards)) @ tagged "promo_family" (promo_family r (200 / !nshards))) ()
        | "C08" -> run_positions s r corpus { none with p_attacks = true; p_attackers = true; depth = 12; undo_pct = 5; null_pct = 3 } 2500 50000
-                    ~extra:(tagged "pin_family" (pin_family r (400 / !nshards))) ()
+                    ~extra:(tagged "pin_family" (pin_family r (400 / !nshards)) @ tagged "discovery_family" (discovery_family r (300 / !nshards))
+                            @ tagged "ep_family" (ep_family r (200 / !nshards)) @ tagged "castling_family" (castling_family r (160 / !nshards))) ()
        | "C13" -> run_positions s r corpus { none with p_attacks = true; depth = 12; undo_pct = 5; null_pct = 5 } 3000 70000
                     ~extra:(tagged "pin_family" (pin_family r (2000 / !nshards))) ()
        | "C18" ->
@@ -807,9 +939,31 @@ let () =
          run_positions s r corpus { none with p_attacks = true; depth = 0 } 100 1000 ~extra:sk ();
          run_positions s r corpus { none with p_attacks = true; depth = 12 } 2000 100000 ()
        | "C10" ->
-         run_scripts s r { none with p_game = true; p_state = true } [ "long_shuttle"; "perpetual_white"; "perpetual_black"; "stale_history" ];
-         run_positions s r corpus { none with p_game = true; depth = 40; undo_pct = 8; null_pct = 3 } 2500 40000 ()
-       | "C11" -> run_positions s r corpus { none with p_text = true; p_parseall = 15; depth = 12 } 2500 16000
+         run_scripts s r { none with p_game = true; p_state = true } [ "long_shuttle"; "perpetual_white"; "perpetual_black"; "stale_history"; "king_takes_castling_rook"; "king_takes_castling_rook_black"; "threefold_huge_clock"; "threefold_huge_clock2" ];
+         run_positions s r corpus { none with p_game = true; depth = 40; undo_pct = 8; null_pct = 3 } 2500 40000
+           ~extra:(tagged "no_move_family" (no_move_family r (240 / !nshards)) @ tagged "ep_family" (ep_family r (300 / !nshards))
+                   @ tagged "pin_family" (pin_family r (200 / !nshards))) ()
+       | "C11" ->
+         (* equal hash, different castling rook: every text of either twin parsed on the one and immediately on the other *)
+         List.iter (fun (pa, pb) ->
+             run_case s (fun () ->
+                 bump "source_rook_identity_pair";
+                 let fa = fen_string true pa and fb = fen_string true pb in
+                 let texts p = List.map (fun mv -> string_of_str (move_text mv)) (spec_moves p) in
+                 let all = List.sort_uniq compare (texts pa @ texts pb @ [ "e1g1"; "e1c1"; "e8g8"; "e8c8" ]) in
+                 let ask f p =
+                   op_setfen s true f;
+                   List.iter (fun str ->
+                       let want = parse_move (cur s).mp (str_of_string str) in
+                       (match toks (send s.d ("parse " ^ hexstr str)), want with
+                        | [ "p"; "throw" ], None -> if List.mem str (texts p) then fail_spec "parse_move rejects %S on %S" str f
+                        | [ "p"; c ], Some wm when c <> "throw" && int_of_string c = code_of_move wm ->
+                          if not (List.exists (fun x -> code_of_move x = int_of_string c) (spec_moves p)) then fail_spec "parse_move(%S) on %S returns a move that is not legal there" str f
+                        | _ -> fail_model "parse_move(%S) on %S differs from the model's" str f);
+                       bump "parse_twin_queries") all in
+                 op_new s true fa;
+                 ask fa pa; ask fb pb; ask fa pa)) (rook_identity_pairs r (max 1 ((if !tier = "quick" then 64 else 1200) / !nshards)));
+         run_positions s r corpus { none with p_text = true; p_parseall = 15; depth = 12 } 2500 16000
                     ~extra:(tagged "castling_family" (castling_family r (300 / !nshards))) ()
        | "C12" ->
          (* equal hash, different castling rook: queried back to back on one object and in one process (a cache keyed by the
@@ -844,7 +998,8 @@ let () =
                  root_children s r pl)) (rook_identity_pairs r (max 1 ((if !tier = "quick" then 64 else 1200) / !nshards)));
          run_positions s r corpus { none with p_text = true; p_predict = true; p_predict_cpp = true; depth = 14 } 2500 100000
                     ~extra:(tagged "castling_family" (castling_family r (600 / !nshards)) @ tagged "promo_family" (promo_family r (300 / !nshards))) ()
-       | "C07" -> run_positions s r corpus { none with p_rt = true; p_fen = true; p_state = true; depth = 20 } 2500 100000 ()
+       | "C07" -> run_positions s r corpus { none with p_rt = true; p_fen = true; p_state = true; depth = 20 } 2500 100000
+                    ~extra:(tagged "long_placement" (List.filter_map (fun _ -> match long_placement r with Some p -> Some (true, p) | None -> None) (List.init 60 (fun i -> i)))) ()
        | "C04" ->
          (* the count must not depend on what was computed before: positions with equal placement (and equal hash) but a
             different castling rook, evaluated back to back in one process *)
@@ -867,9 +1022,11 @@ let () =
          run_positions s r corpus { none with p_state = true; p_moves = true; p_attacks = true; p_game = true; p_text = true; p_fen = true; p_hist = true;
                                                        depth = 40; undo_pct = 12; null_pct = 4 } 1500 12000
                     ~extra:(tagged "castling_family" (castling_family r (300 / !nshards)) @ tagged "ep_family" (ep_family r (600 / !nshards))
-                            @ tagged "promo_family" (promo_family r (200 / !nshards))) ()
+                            @ tagged "promo_family" (promo_family r (200 / !nshards)) @ tagged "material_family" (material_family r (64 / !nshards))
+                            @ tagged "long_placement" (List.filter_map (fun _ -> match long_placement r with Some p -> Some (true, p) | None -> None) (List.init 40 (fun i -> i)))
+                            @ tagged "discovery_family" (discovery_family r (100 / !nshards)) @ tagged "no_move_family" (no_move_family r (60 / !nshards))) ()
        | "C09" ->
-         run_scripts s r { none with p_game = true; p_state = true } [ "long_shuttle"; "perpetual_white"; "perpetual_black"; "stale_history" ];
+         run_scripts s r { none with p_game = true; p_state = true } [ "long_shuttle"; "perpetual_white"; "perpetual_black"; "stale_history"; "king_takes_castling_rook"; "king_takes_castling_rook_black"; "threefold_huge_clock"; "threefold_huge_clock2" ];
          Special.run s r corpus "C09" !tier !nshards !budget
        | p -> Special.run s r corpus p !tier !nshards !budget
    with Exit -> ());
